@@ -19,7 +19,9 @@ def dropout_events():
 
 ALT_P = {0.0: 0.5, 0.3: 0.75, 0.5: 0.2, 0.75: 0.3, 1.0: 0.5}
 
-def run_dropout(p, hist):
+HOSTED_EVENTS = ["T", "E", "cT", "cE", "F5", "F2", "Fb"]
+
+def run_dropout(p, hist, host="bare"):
     """The statement fixes the distribution (each element dropped independently with probability p, survivors scaled by exactly
     1/(1-p), same mask in backward), not how a uniform draw u is turned into the decision: `u > p` keeps (convention A) and
     `u < 1-p` keeps (convention B) are both right.  The scripted answers are a = min(p,1-p)/2 and c = (max(p,1-p)+1)/2: A keeps
@@ -27,6 +29,10 @@ def run_dropout(p, hist):
     convention but the same one in every call of a history."""
     sg = harness.load()
     L = sg.nn.Dropout(p)
+    # host: the layer is called directly, or through a container it is a stage of; the container's own mode is switched by cT / cE
+    # (which reach the layer), the layer's own by T / E (Monte-Carlo dropout: container in eval mode, the layer switched back to
+    # train).  What the layer does depends on ITS mode only.
+    S = {"bare": lambda: L, "seq": lambda: sg.nn.Sequential(L), "nested": lambda: sg.nn.Sequential(sg.nn.Sequential(L))}[host]()
     training = True
     viols = []
     conv = None
@@ -37,6 +43,8 @@ def run_dropout(p, hist):
         def v(kind, detail): viols.append((kind, detail, prefix))
         if e == "T": L.train(); training = True
         elif e == "E": L.eval(); training = False
+        elif e == "cT": S.train(); training = True
+        elif e == "cE": S.eval(); training = False
         elif e == "P":
             p = ALT_P[p0] if p == p0 else p0          # the drop probability is an attribute of the layer: the current value counts
             L.p = p; conv = None
@@ -56,7 +64,7 @@ def run_dropout(p, hist):
             x = sg.Tensor(X3.copy(), requires_grad=(i % 2 == 0))     # every other forward gets plain data: the mask applies all the same
             with randsrc.controlled(u=u) as src:
                 try:
-                    y = L(x)
+                    y = S(x)
                 except Exception as ex:
                     v("dropout:raised", f"{type(ex).__name__}: {ex}"); return viols, i + 1
                 draws = src.n_u
@@ -83,7 +91,7 @@ def run_dropout(p, hist):
                         keep = cands[sorted(ok)[0]]
                         x2 = sg.Tensor(X3.copy(), requires_grad=True)
                         with randsrc.controlled(u=u):
-                            y2 = L(x2)
+                            y2 = S(x2)
                         pending.append((x2, y2, keep, p, prefix))
                         try:
                             if not x.requires_grad: raise StopIteration
@@ -165,6 +173,10 @@ def run_bn(cfg, hist):
         try:
             if e == "T": L.train(); R.train()
             elif e == "E": L.eval(); R.eval()
+            elif e == "K":
+                # the user flips layer.track_running_stats after construction (freezing the statistics for fine-tuning): the
+                # buffers stay, eval keeps normalising with them, training forwards stop updating them
+                L.track_running_stats = not L.track_running_stats; R.track_running_stats = not R.track_running_stats
             else:
                 xb = batches[e].astype(dt)
                 # A: input requires grad; B: plain input (with affine=False the output is untracked); C: forward under no_grad -
@@ -202,7 +214,7 @@ def run_bn(cfg, hist):
                 if not np.allclose(after[1], rv, rtol=rt, atol=at):
                     v("batchnorm:running_var", f"cfg {cfg} after {prefix}: {after[1]} vs reference {rv}")
                 changed = not (np.array_equal(after[0], before[0]) and np.array_equal(after[1], before[1]))
-                if (e in "TE" or not L.training) and changed:
+                if (e in "TEK" or not L.training) and changed:
                     v("batchnorm:buffers-changed-outside-training-forward", f"after {prefix}")
             exp_nb = int(R.num_batches_tracked)
             if L.num_batches_tracked is not None and int(L.num_batches_tracked) != exp_nb:
@@ -242,12 +254,12 @@ def run_bn(cfg, hist):
 # ----------------------------------------------------------------------------- driver
 def judge(case):
     if case["kind"] == "dropout":
-        vs, n = run_dropout(case["p"], case["history"])
+        vs, n = run_dropout(case["p"], case["history"], case.get("host", "bare"))
     else:
         vs, n = run_bn(case["cfg"], case["history"])
     viol = [{"kind": k, "detail": d + " [shortest violating prefix " + json.dumps(list(pre)) + "]"} for k, d, pre in vs]
     h = case["history"]
-    nt = any(e not in ("T", "E") for e in h) and any(e in ("T", "E") for e in h)
+    nt = any(e not in ("T", "E", "cT", "cE") for e in h) and any(e in ("T", "E", "cT", "cE") for e in h)
     return {"nontrivial": nt, "outcome": "ok" if not vs else "violation", "violations": viol}
 
 def replay(case):
@@ -260,18 +272,25 @@ def run(tier, seed):
     for p in (0.0, 0.3, 0.5, 0.75, 1.0):
         for h in itertools.product(dropout_events(), repeat=dd):
             cases.append({"kind": "dropout", "p": p, "history": list(h)})
+    for host in ("seq", "nested"):
+        for p in (0.5, 0.3):
+            for h in itertools.product(HOSTED_EVENTS, repeat=dd + 1):
+                if any(e[0] == "c" for e in h): cases.append({"kind": "dropout", "p": p, "host": host, "history": list(h)})
     cfgs = bn_configs()
     for c in cfgs:
         ev = "TEAB" if c["rank"] == 2 else "TEABC"
         for h in itertools.product(ev, repeat=bd if c["rank"] == 2 else bd - 1):
             cases.append({"kind": "batchnorm", "cfg": c, "history": list(h)})
+        if c["track"] and c["eps"] != 0.1:
+            for h in itertools.product("TEABK", repeat=bd - 1):
+                if "K" in h: cases.append({"kind": "batchnorm", "cfg": c, "history": list(h)})
         for h in itertools.product("TEAB", repeat=bd - 1):          # float32 layers: values, and dtype of outputs and buffers
             cases.append({"kind": "batchnorm", "cfg": dict(c, dtype="float32"), "history": list(h)})
     r = engine.run_cases(cases, judge)
     best = {}
     for v in r["violations"]:
         pre = json.loads(v["detail"].rsplit("[shortest violating prefix ", 1)[-1][:-1])
-        key = (v["kind"], harness.digest(v["case"].get("cfg", v["case"].get("p"))))
+        key = (v["kind"], harness.digest(v["case"].get("cfg", [v["case"].get("p"), v["case"].get("host")])))
         if key not in best or len(pre) < len(best[key][0]):
             c = dict(v["case"]); c["history"] = pre
             best[key] = (pre, {"kind": v["kind"], "detail": v["detail"], "case": c})
@@ -279,7 +298,7 @@ def run(tier, seed):
     cov = {"states": nd + nb, "transitions": nd + nb - 4 - len(cfgs), "traces_validated_against_impl": r["evaluations"],
            "evaluations": r["evaluations"], "distinct_nontrivial": r["distinct_nontrivial"], "samples": r["samples"], "exhaustive": True,
            "rule": f"Dropout p in {{0,.3,.5,.75,1}} x ALL {len(dropout_events()) ** dd} histories of length {dd} over {{train, eval, re-assign layer.p, forward with each of the 8 "
-                   f"keep/drop answer vectors, forward at the boundary u=p}}; BatchNorm: {len(cfgs)} configurations (momentum {{.1,.5,1,0,None}} x "
+                   f"keep/drop answer vectors, forward at the boundary u=p}}; the layer as a stage of a Sequential / a nested Sequential (p in {{.5,.3}}): all histories of length {dd + 1} over {{layer.train, layer.eval, container.train, container.eval, 3 forwards through the container}} that switch the container at least once; BatchNorm: {len(cfgs)} configurations (momentum {{.1,.5,1,0,None}} x "
                    f"affine x track_running_stats x input rank 2/3/4) x ALL {4 ** bd} histories of length {bd} over {{train, eval, forward(A: 2 "
                    "samples, input requires grad), forward(B: 3 samples, plain input), for rank >= 3 also forward(C: 1 sample, under no_grad) with histories one shorter}} in lock-step with torch.nn.BatchNorm1d/2d (float64; float32 layers one level shallower, "
                    "incl. dtype of outputs and buffers): output, running_mean, "
